@@ -23,17 +23,19 @@ shutil.copy(patch, dst + '/patch.diff'); shutil.copy(demo, dst + '/demo.py')
 notes = open(os.path.join(mdir, 'notes.txt')).read() if os.path.exists(os.path.join(mdir, 'notes.txt')) else ''
 res = dict(confirmed=ok)
 if ok:
-    rc, out = run(f'git -C /repo apply {dst}/patch.diff'); assert rc == 0, out
+    # the check is pointed at the scratch worktree with the change applied (SYMNP_REPO), so /repo itself stays untouched and
+    # other work can go on; `git -C /repo apply <patch>; ./check ...; git -C /repo checkout -- .` is equivalent
+    rc, out = run(f'git apply {dst}/patch.diff', cwd=wt); assert rc == 0, out
     try:
         t = time.time()
         cmd = f'./check {pid} --tier {tier} --no-evidence' + (f' --only {only}' if only else '')
-        rcc, outc = run(cmd, cwd='/verif', timeout=3600)
+        rcc, outc = run(cmd, cwd='/verif', timeout=3600, env=dict(os.environ, SYMNP_REPO=wt))
         viol = [l for l in outc.split('\n') if l.startswith('VIOLATION')]
         vnames = sorted({l.split(' :: ')[0].replace('  violation: ', '') + ' :: ' + l.split(' :: ')[1] for l in outc.split('\n') if l.startswith('  violation:')})
         res.update(check_cmd=cmd, check_exit=rcc, detected=bool(viol) and rcc == 1, violations=vnames[:8], wall_s=round(time.time() - t, 1))
         ran.append(f'{cmd}: exit {rcc}, {len(viol)} VIOLATION lines')
     finally:
-        run('git -C /repo checkout -- .')
+        run('git checkout -- .', cwd=wt)
 meta = dict(id=sid, property=pid, needs=notes.strip()[:1500], ran=ran, result=res)
 json.dump(meta, open(dst + '/meta.json', 'w'), indent=1)
 print(json.dumps(dict(id=sid, confirmed=ok, **{k: res.get(k) for k in ('detected', 'check_exit', 'violations', 'wall_s')}), indent=1))
